@@ -35,10 +35,12 @@ impl TableBuilder for Program {
         if let Some(entry) = table.lookup("main").as_ref() {
             if let GlobalEntry::Procedure(main) = &entry {
                 if !main.parameters.is_empty() {
-                    self.info.append_error(SplError(
-                        main.name.to_range(),
-                        BuildErrorMessage::MainMustNotHaveParameters.into(),
-                    ));
+                    // The name's range is relative to its declaration,
+                    // but this error is stored in the program node.
+                    let name_error = main
+                        .name
+                        .to_error(|_| BuildErrorMessage::MainMustNotHaveParameters);
+                    self.info.append_error(name_error.shift(main.range.start));
                 }
             } else {
                 panic!("'main' must be a procedure");
